@@ -12,6 +12,10 @@ Definition obj_of (it : item) : pyval :=
   PObj [("group_id"%string, PInt (it_group it)); ("item_id"%string, PInt (it_item it)); ("bits"%string, PInt (it_bits it));
         ("signed"%string, PBool (it_signed it)); ("value"%string, cv (it_value it))].
 
+(* the same object with arbitrary attribute values (e.g. as the constructor leaves them) *)
+Definition obj5 (a b c d e : pyval) : pyval :=
+  PObj [("group_id"%string, a); ("item_id"%string, b); ("bits"%string, c); ("signed"%string, d); ("value"%string, e)].
+
 Lemma header_lt g i b h : build_header g i b = Ok h -> (0 <= g <= 255)%Z -> (0 <= i <= 4095)%Z -> h < 4294967296.
 Proof.
   intros H Hg Hi. destruct (valid_bits b) eqn:Hv.
@@ -105,14 +109,14 @@ Qed.
 Definition lift_unpack (r : res (item * nat)) (w : W) : @fres E :=
   match r with Ok (it, n) => FRet (PTuple [PInt (Z.of_nat n); obj_of it]) w | Raise e => FRaise e w end.
 
-Lemma bridge_unpack_value fuel g i b s v0 d (w : W) :
-  gc_unpack_value (E := E) fuel (obj_of (mkItem g i b s v0)) (PBytes d) w
+Lemma bridge_unpack_value fuel g i b s (v0 : pyval) d (w : W) :
+  gc_unpack_value (E := E) fuel (obj5 (PInt g) (PInt i) (PInt b) (PBool s) v0) (PBytes d) w
   = match unpack_value b s d with
     | Ok (v, n) => FRet (PTuple [PInt (Z.of_nat n); obj_of (mkItem g i b s v)]) w
     | Raise e => FRaise e w
     end.
 Proof.
-  unfold gc_unpack_value, obj_of, unpack_value. py_unfold. cbn.
+  unfold gc_unpack_value, obj_of, obj5, unpack_value. py_unfold. cbn.
   unfold bytes_from_bits.
   Ltac use_eqs := repeat match goal with H : (_ =? _)%Z = _ |- _ => rewrite !H end.
   destruct (b =? 1)%Z eqn:E1.
@@ -131,8 +135,8 @@ Qed.
 Lemma len_lt4 (d : bytes) : (Z.of_nat (length d) <? 4)%Z = Nat.ltb (length d) 4.
 Proof. destruct (Nat.ltb (length d) 4) eqn:H; lia. Qed.
 
-Theorem bridge_unpack fuel it0 data (w : W) :
-  gc_unpack (E := E) sk fuel (obj_of it0) (PBytes data) w = lift_unpack (unpack_item_cfg sk data) w.
+Theorem bridge_unpack_gen fuel a0 b0 c0 d0 e0 data (w : W) :
+  gc_unpack (E := E) sk fuel (obj5 a0 b0 c0 d0 e0) (PBytes data) w = lift_unpack (unpack_item_cfg sk data) w.
 Proof.
   unfold gc_unpack, unpack_item_cfg. py_unfold. cbn [cunpack__data py_len py_lt].
   rewrite len_lt4.
@@ -141,15 +145,18 @@ Proof.
   rewrite (unpack_int_spec false 4 (firstn 4 data)) by (rewrite firstn_length; lia).
   cbn. rewrite !N2Z.id.
   set (k := le_dec (firstn 4 data)).
-  destruct it0 as [g0 i0 b0 s0 v0]. cbn.
   change (Z.to_nat 4) with 4%nat.
   match goal with |- context [gc_unpack_value fuel ?o _ w] =>
-    change o with (obj_of (mkItem (group_from_key k) (item_from_key k) (bits_from_key k) (sign_of sk k) v0)) end.
-  rewrite (bridge_unpack_value fuel (group_from_key k) (item_from_key k) (bits_from_key k) (sign_of sk k) v0 (skipn 4 data) w).
+    change o with (obj5 (PInt (group_from_key k)) (PInt (item_from_key k)) (PInt (bits_from_key k)) (PBool (sign_of sk k)) e0) end.
+  rewrite (bridge_unpack_value fuel (group_from_key k) (item_from_key k) (bits_from_key k) (sign_of sk k) e0 (skipn 4 data) w).
   destruct (unpack_value (bits_from_key k) (sign_of sk k) (skipn 4 data)) as [[v n]|e]; cbn.
   - replace (4 + Z.of_nat n)%Z with (Z.of_nat (4 + n)) by lia. reflexivity.
   - destruct e; reflexivity.
 Qed.
+
+Theorem bridge_unpack fuel it0 data (w : W) :
+  gc_unpack (E := E) sk fuel (obj_of it0) (PBytes data) w = lift_unpack (unpack_item_cfg sk data) w.
+Proof. apply bridge_unpack_gen. Qed.
 End Br.
 
 Print Assumptions bridge_pack.
